@@ -197,6 +197,7 @@ func checkC11(env *fw.Env, c C11Case) *fw.Failure {
 			classes = append(classes, "write-just-after-previous-left-ttl-window")
 		}
 		lastWrite = time.Now()
+		writeFailed := false
 		before, _ := semkit.RefCheck(cur, r.Req)
 		g := m.Tuple{Object: r.Req.Object, Relation: r.Req.Relation, User: r.Req.User}
 		if r.Wild && m.UserKind(r.Req.User) == "object" {
@@ -213,18 +214,24 @@ func checkC11(env *fw.Env, c C11Case) *fw.Failure {
 		}
 		switch {
 		case idx >= 0:
-			if err := s.DeleteAPI(storeID, modelID, []m.Tuple{cur.Tuples[idx]}); err == nil {
+			if err := s.DeleteAPI(storeID, modelID, []m.Tuple{cur.Tuples[idx]}); err != nil {
+				writeFailed = true
+			} else {
 				applyWrite(&cur, "delete", []m.Tuple{g})
 				classes = append(classes, "delete")
 			}
 		case refsem.ValidForRead(c.World.Model, g) == refsem.OK && g.User != g.Object+"#"+g.Relation && !inLeft(c.World.Left, g):
-			if err := s.WriteAPI(storeID, modelID, []m.Tuple{g}); err == nil {
+			if err := s.WriteAPI(storeID, modelID, []m.Tuple{g}); err != nil {
+				writeFailed = true
+			} else {
 				applyWrite(&cur, "write", []m.Tuple{g})
 				classes = append(classes, "write")
 			}
 		case len(cur.Tuples) > 0:
 			d := cur.Tuples[0]
-			if err := s.DeleteAPI(storeID, modelID, []m.Tuple{d}); err == nil {
+			if err := s.DeleteAPI(storeID, modelID, []m.Tuple{d}); err != nil {
+				writeFailed = true
+			} else {
 				applyWrite(&cur, "delete", []m.Tuple{d})
 				classes = append(classes, "delete-other")
 			}
@@ -239,11 +246,20 @@ func checkC11(env *fw.Env, c C11Case) *fw.Failure {
 				for k := 0; k < 60; k++ {
 					bulk = append(bulk, m.Tuple{Object: fmt.Sprintf("%s:bulk%d", slot.typ, i), Relation: slot.rel, User: fmt.Sprintf("%s:b%d", slot.user, k)})
 				}
-				if err := s.WriteAPI(storeID, modelID, bulk); err == nil {
+				if err := s.WriteAPI(storeID, modelID, bulk); err != nil {
+				writeFailed = true
+			} else {
 					applyWrite(&cur, "write", bulk)
 					classes = append(classes, "bulk-write>page")
 				}
 			}
+		}
+		if writeFailed {
+			// a Write that reports an error may or may not have been applied (e.g. a request time-out on a
+			// loaded machine): the reference state is unknown from here on
+			env.Rec.Inconclusive()
+			env.Rec.Case(c, false, nil, append(classes, "write-error")...)
+			return nil
 		}
 		after, _ := semkit.RefCheck(cur, r.Req)
 		if r.Late && c.ShortIt {
